@@ -77,6 +77,8 @@ type First struct {
 	// StopAt: call ordinals at which the function turns the request away (TERMINATE in its
 	// FlagSet; its content is then what the client is shown)
 	StopAt []int `json:"stop_at,omitempty"`
+	// ErrAt: call ordinals at which the function fails (returns an error)
+	ErrAt []int `json:"err_at,omitempty"`
 }
 
 // App is a whole application.
